@@ -38,6 +38,7 @@ PROPS = {
         "level": "exploration",
         "units": [
             U("c02", "TestSoundness", T(60, 16, 300), T(100, 96, 900)),
+            U("c02", "TestConcurrentVerifiers", T(6, 4, 300), T(10, 32, 900), race=True),
             U("c02", "TestAutoVerify", T(25, 8, 300), T(40, 80, 600)),
         ],
     },
